@@ -106,4 +106,33 @@ def _strategy(tier):
                      proc.script(depth=2, max_pre=1, max_post=2, comments=0), proc.script(depth=3, max_pre=0, max_post=2, comments=0)).map(lambda laid: {'lex': laid})
 
 
-LEGS = [Leg('pairs', check=check, strategy=_strategy, examples={'quick': 8000, 'thorough': 150000})]
+@st.composite
+def long_list_cases(draw):
+    """a long IN list / VALUES list (thousands of sibling tokens): the two renderings differ a lot in token count, since the
+    lexer emits one token per whitespace character"""
+    from gen.grammar import L, kw, W, P, seq, paren, comma_list
+    n = draw(st.sampled_from([300, 1000, 1500, 2500, 3400, 5000]))
+    kind = draw(st.sampled_from(['in', 'values', 'select-list']))
+    wsx = draw(st.sampled_from(['  ', '\n', '\n   ', '\n           ', '\t\t', ' \n ']))
+    items = [[L('num', str(i))] for i in range(n)]
+    if kind == 'in':
+        lex = W('stmt', seq(L('kw', 'WITH', False, lead_cte=True), L('name', 'stale'), kw('AS'), W('paren', paren([L('kw', 'SELECT', False, lead='SELECT'), L('num', '1')])),
+                            L('kw', 'DELETE', False, lead='DELETE'), kw('FROM'), L('name', 't'), kw('WHERE'), L('name', 'id'), kw('IN'), W('paren', paren(comma_list(items)))), type='DELETE')
+    elif kind == 'values':
+        rows = [paren([L('num', str(i)), P(','), L('num', str(i * i))]) for i in range(n // 2)]
+        lex = W('stmt', seq(L('kw', 'INSERT', False, lead='INSERT'), kw('INTO'), L('name', 'sq'), kw('VALUES'), comma_list(rows)), type='INSERT')
+    else:
+        lex = W('stmt', seq(L('kw', 'SELECT', False, lead='SELECT'), comma_list(items), kw('FROM'), L('name', 't')), type='SELECT')
+    lex = lex + [list(G.SEMI)] + W('stmt', [L('kw', 'SELECT', False, lead='SELECT'), L('num', '1')], type='SELECT')
+    laid = G.canonical(lex)
+    for l in laid:
+        if l[0] != 'mark' and l[3].get('gap'):
+            l[3]['gap'] = wsx
+        if l[0] == 'kw':
+            l[3]['canon'] = l[1]
+            l[1] = l[1].lower()
+    return {'lex': laid}
+
+
+LEGS = [Leg('long-lists', check=check, strategy=lambda tier: long_list_cases(), examples={'quick': 48, 'thorough': 400}),
+        Leg('pairs', check=check, strategy=_strategy, examples={'quick': 8000, 'thorough': 150000})]
